@@ -188,6 +188,8 @@ type World struct {
 	// GenFailNext makes the next n relay allocations fail; QuotaDeny makes the quota handler refuse.
 	GenFailNext int
 	QuotaDeny   bool
+	// Unclosable: relay sockets whose Close was made to fail once (Event.Fail "closeerr"); closed by CloseServer
+	Unclosable []*simnet.UDPSock
 }
 
 // Standard addresses.
@@ -472,6 +474,12 @@ func (w *World) eventHandler() turn.EventHandler {
 
 // CloseServer closes the server and waits for quiescence.
 func (w *World) CloseServer() {
+	for _, s := range w.Unclosable {
+		s.CloseErr = nil
+		_ = s.Close()
+	}
+	w.Unclosable = nil
+	synctest.Wait()
 	if w.Cfg.Dual && w.Cfg.AppClosedUDP && w.SrvSock != nil {
 		_ = w.SrvSock.Close()
 		synctest.Wait()
